@@ -115,10 +115,16 @@ def member(t, v):
   if t.is_floating_point:
     return True
   if t.mode == 0:
-    q = _mods()["q"].quantized_bits(int(t.bits), int(t.int_bits), 0, keep_negative=bool(t.is_signed))
-    if abs(v) > 2 ** 100:
-      return False
-    return emit(q, v) == v and Fraction(float(v)) == v
+    # exact rational arithmetic: v = k * 2^(int_bits - n), -signed*2^n <= k <= 2^n - 1
+    n = int(t.bits) - int(t.is_signed)
+    k = v / (Fraction(2) ** (int(t.int_bits) - n))
+    ok = k.denominator == 1 and (-(2 ** n) if t.is_signed else 0) <= k <= 2 ** n - 1
+    if n <= 16 and abs(v) < 2 ** 20 and n >= 1 and int(t.int_bits) >= 0:
+      # cross-check with the real quantizer where float32 is exact
+      q = _mods()["q"].quantized_bits(int(t.bits), int(t.int_bits), 0, keep_negative=bool(t.is_signed))
+      if (emit(q, v) == v) != ok:
+        raise AssertionError("native membership oracle disagrees with quantized_bits for %s in %s" % (v, vars(t)))
+    return ok
   if t.mode == 1:
     if v == 0:
       return False
@@ -215,4 +221,194 @@ def c16_mult(d):
       desc.update({"a": str(a), "b": str(b), "product": str(a * b), "pair": "found by enumeration"})
       return {"status": "confirmed", "observed": desc}
   desc["pairs_enumerated"] = n
+  return {"status": "refuted", "observed": desc}
+
+
+# ------------------------------------------------------------------ C17
+def _operand(tok, w, pfx):
+  k, mv = parse_kind(tok)
+  qk = build_qkeras(k, mv, w, pfx)
+  t = make_type(k, qk)
+  vals, _ = operand_values(k, mv, w, pfx, qk)
+  return k, t, vals
+
+
+def res_exp(vals):
+  """largest e such that every value is a multiple of 2^e (vals: Fractions, not all zero)."""
+  e = None
+  for v in vals:
+    if v == 0:
+      continue
+    x = abs(v)
+    k = 0
+    while x.denominator != 1:
+      x *= 2
+      k -= 1
+    x = x.numerator
+    while x % 2 == 0:
+      x //= 2
+      k += 1
+    e = k if e is None else min(e, k)
+  return e
+
+
+def out_step_exp(out):
+  return int(out.int_bits) - (int(out.bits) - int(out.is_signed))
+
+
+def frac_keep_native(out, value_sets, desc):
+  finest = min(res_exp(v) for v in value_sets)
+  step = out_step_exp(out)
+  desc.update({"finest_operand_step_exp": finest, "output_step_exp": step})
+  return {"status": "confirmed" if step > finest else "refuted", "observed": desc,
+          "expected": "output resolution at least as fine as the finest operand"}
+
+
+def _first_bad(out, sums):
+  for desc, v in sums:
+    if not member(out, v):
+      return desc, v
+  return None
+
+
+@replayer("c17_acc")
+def c17_acc(d):
+  m = _mods()
+  w = d["witness"] or {}
+  tok, rank, bias = d["case"].rsplit("_", 2)
+  k, t, vals = _operand(tok, w, "m")
+  rank = int(rank[4:])
+  dims = tuple(int(w.get("d%d" % i, 1)) for i in range(rank))
+  use_bias = bias == "bias"
+
+  class _M(object):
+    pass
+  mult = _M()
+  mult.output = t
+  before = _attrs(t)
+  try:
+    acc = m["af"].AccumulatorFactory().make_accumulator(dims, mult, use_bias)
+  except Exception as e:  # pylint: disable=broad-except
+    return {"status": "confirmed" if d["clause"] == "no_raise" else "error", "observed": "raised %s: %s" % (type(e).__name__, e)}
+  if d["clause"] == "no_raise":
+    return {"status": "refuted"}
+  if d["clause"] == "frame":
+    return {"status": "refuted" if before == _attrs(t) else "confirmed"}
+  out = acc.output
+  desc = {"out": {k_: getattr(out, k_, None) for k_ in ("mode", "bits", "int_bits", "is_signed")}, "dims": dims}
+  if k == "float":
+    return {"status": "refuted" if out.is_floating_point else "confirmed", "observed": desc}
+  if d["clause"] == "frac_keep":
+    return frac_keep_native(out, [vals], desc)
+  n = int(np.prod(dims[:-1])) + (1 if use_bias else 0)
+  vmax, vmin = max(vals), min(vals)
+  sums = [("N*max", n * vmax), ("N*min", n * vmin)]
+  sums += [("(N-1)*max+v", (n - 1) * vmax + v) for v in vals[:64]] + [("(N-1)*min+v", (n - 1) * vmin + v) for v in vals[:64]]
+  bad = _first_bad(out, sums)
+  if bad:
+    desc.update({"N": n, "sum": str(bad[1]), "how": bad[0]})
+    return {"status": "confirmed", "observed": desc, "expected": "sum of N multiplier-output values representable in the accumulator type"}
+  return {"status": "refuted", "observed": desc}
+
+
+@replayer("c17_add")
+def c17_add(d):
+  m = _mods()
+  w = d["witness"] or {}
+  t1, t2 = d["case"].split("_plus_")
+  k1, q1, v1 = _operand(t1, w, "p")
+  k2, q2, v2 = _operand(t2, w, "q")
+  before = (_attrs(q1), _attrs(q2))
+  try:
+    add = m["addf"].IAdder().make_quantizer(q1, q2)
+  except Exception as e:  # pylint: disable=broad-except
+    return {"status": "confirmed" if d["clause"] == "no_raise" else "error", "observed": "raised %s: %s" % (type(e).__name__, e)}
+  if d["clause"] == "no_raise":
+    return {"status": "refuted"}
+  if d["clause"] == "frame":
+    return {"status": "refuted" if before == (_attrs(q1), _attrs(q2)) else "confirmed"}
+  out = add.output
+  desc = {"out": {k_: getattr(out, k_, None) for k_ in ("mode", "bits", "int_bits", "is_signed")}}
+  if "float" in (k1, k2):
+    return {"status": "refuted" if out.is_floating_point else "confirmed", "observed": desc}
+  if d["clause"] == "frac_keep":
+    return frac_keep_native(out, [v1, v2], desc)
+  n = 0
+  for a in v1:
+    for b in v2:
+      n += 1
+      if n > 6000:
+        break
+      if not member(out, a + b):
+        desc.update({"a": str(a), "b": str(b), "sum": str(a + b)})
+        return {"status": "confirmed", "observed": desc, "expected": "a + b representable in the adder output type"}
+  desc["pairs"] = n
+  return {"status": "refuted", "observed": desc}
+
+
+@replayer("c17_widen")
+def c17_widen(d):
+  m = _mods()
+  w = d["witness"] or {}
+  tok = d["case"][len("widen_qbits_plus_"):]
+  _, q1, _ = _operand("qbits", w, "p")
+  _, q1w, _ = _operand("qbits", w, "pw")
+  _, q2, _ = _operand(tok, w, "q")
+  o1 = m["addf"].IAdder().make_quantizer(q1, q2).output
+  o2 = m["addf"].IAdder().make_quantizer(q1w, q2).output
+
+  def comp(o):
+    f = o.bits - int(o.is_signed) - o.int_bits
+    return (o.int_bits, f, int(o.is_signed))
+  if o1.is_floating_point or o2.is_floating_point:
+    ok = o2.is_floating_point or not o1.is_floating_point
+  else:
+    ok = all(x2 >= x1 for x1, x2 in zip(comp(o1), comp(o2)))
+  return {"status": "refuted" if ok else "confirmed", "observed": {"narrow": comp(o1) if not o1.is_floating_point else "float",
+                                                                 "wide": comp(o2) if not o2.is_floating_point else "float"}}
+
+
+@replayer("c17_merge")
+def c17_merge(d):
+  m = _mods()
+  w = d["witness"] or {}
+  cls = d["obligation"].split("::")[1].split(".")[0]
+  toks = []
+  rest = d["case"]
+  names = ["qbits", "qrelu", "po2-mvnone", "ternary", "binary01", "binary", "float"]
+  while rest:
+    for nme in names:
+      if rest.startswith(nme):
+        toks.append(nme)
+        rest = rest[len(nme):].lstrip("_")
+        break
+    else:
+      return {"status": "error", "detail": "cannot parse case " + d["case"]}
+  ops = [_operand(t, w, "i%d" % i) for i, t in enumerate(toks)]
+  try:
+    mg = getattr(m["mg"], cls)([(t, None) for _, t, _ in ops])
+  except Exception as e:  # pylint: disable=broad-except
+    return {"status": "confirmed" if d["clause"] == "no_raise" else "error", "observed": "raised %s: %s" % (type(e).__name__, e)}
+  if d["clause"] == "no_raise":
+    return {"status": "refuted"}
+  out = mg.output
+  desc = {"out": {k_: getattr(out, k_, None) for k_ in ("mode", "bits", "int_bits", "is_signed")}}
+  if any(k == "float" for k, _, _ in ops):
+    return {"status": "refuted" if out.is_floating_point else "confirmed", "observed": desc}
+  if d["clause"] == "frac_keep":
+    if out.mode != 0:
+      return {"status": "refuted", "observed": desc}
+    return frac_keep_native(out, [v for _, _, v in ops], desc)
+  vs = [v[:40] + v[-40:] if len(v) > 80 else v for _, _, v in ops]
+  n = 0
+  for combo in itertools.product(*vs):
+    n += 1
+    if n > 20000:
+      break
+    cands = [sum(combo)] if cls == "Add" else list(combo)
+    for v in cands:
+      if not member(out, v):
+        desc.update({"inputs": [str(x) for x in combo], "value": str(v)})
+        return {"status": "confirmed", "observed": desc}
+  desc["combos"] = n
   return {"status": "refuted", "observed": desc}
